@@ -46,6 +46,8 @@ type helperCall struct {
 }
 
 func checkC10(p *Prog, r *Report) {
+	r.rule("C10.check-complete: SoftResource.check, which Get runs before a soft resource's values are read, cannot return before its loops that zero-fill missing and drop stale fields (shared with C17)")
+	checkSoftCheckComplete(p, r, "C10")
 	r.rule("R1 switch coverage: checkVal has an arm for each of the 28 Go types of the kind table and for []string")
 	r.rule("C10.dispatch (scenario evaluation of checkVal, one scenario per type): a value of type T reaches exactly one call of a comparison helper whose parameter type is T's family (string, int64 for signed, uint64 for unsigned, bool, time.Time, []byte, []string), with the resource value first and the filter value second, through value-preserving conversions only; pointers are dereferenced on both sides")
 	r.rule("C10.nil (scenario evaluation, 14 pointer types x 3 nil patterns x 4 operators): a nil on either side gives '=' iff both are nil, '!=' iff exactly one is, and false for every other operator")
@@ -752,6 +754,29 @@ func checkSliceCanon(p *Prog, r *Report) {
 		n++
 		for _, side := range []ssa.Value{a, b} {
 			sorted := oa.sortedBefore(side, bo.Block(), bo)
+			// a comparison helper's parameter: the lists every call in
+			// checkSlice hands it were sorted before the call
+			if prm, isPrm := side.(*ssa.Parameter); isPrm && !sorted && prm.Parent() != f {
+				g := prm.Parent()
+				idx := -1
+				for i, q := range g.Params {
+					if q == prm {
+						idx = i
+					}
+				}
+				nCalls, allSorted := 0, true
+				eachInstr(f, func(i2 ssa.Instruction) {
+					c, ok := i2.(*ssa.Call)
+					if !ok || c.Common().StaticCallee() != g || idx < 0 || idx >= len(c.Common().Args) {
+						return
+					}
+					nCalls++
+					if !oa.sortedBefore(c.Common().Args[idx], c.Block(), c) {
+						allSorted = false
+					}
+				})
+				sorted = nCalls > 0 && allSorted
+			}
 			r.decide(sorted, "C10.set-equality", "checkSlice:compared-list:"+shorten(pathOf(side, 0)), p.pos(bo.Pos()), "compared after being sorted", "checkSlice compares a list element by element that was not sorted before (the other one was, or a sorted copy was made and the original is compared): equality of ID sets depends on the order in which the IDs are listed")
 		}
 	}
